@@ -193,6 +193,11 @@ impl<'a> IrEmitter<'a> {
                     if left_is_ref && right_is_value {
                         return Ok(quote! { *#l #op_tokens #r });
                     }
+
+                    // `(x) as f64 < y` does not parse (`<` after a cast starts generic arguments).
+                    if matches!(plan.lhs_conv, NumericConversion::ToFloat) {
+                        return Ok(quote! { (#l) #op_tokens #r });
+                    }
                 }
 
                 Ok(quote! { #l #op_tokens #r })
